@@ -285,10 +285,12 @@ impl RtpsWriterProxy {
                 self.acknack_count(),
             );
 
-            let rtps_message = if let Some(missing_change_fragments_seq_num) = self
+            let missing_change_fragments_seq_num = self
                 .missing_changes()
                 .take(256)
-                .find(|s| self.frag_buffer.iter().any(|x| &x.writer_sn() == s))
+                .find(|s| self.frag_buffer.iter().any(|x| &x.writer_sn() == s));
+            let rtps_message = if let Some(missing_change_fragments_seq_num) =
+                missing_change_fragments_seq_num
             {
                 let frag = self
                     .frag_buffer
@@ -310,6 +312,7 @@ impl RtpsWriterProxy {
                     .peek()
                     .expect("At least a fragment must be missing");
                 let fragment_number_state = FragmentNumberSet::new(base, missing_fragments_iter);
+                self.nack_frag_count = self.nack_frag_count.wrapping_add(1);
                 let nack_frag_submessage = NackFragSubmessage::new(
                     reader_guid.entity_id(),
                     self.remote_writer_guid().entity_id(),
